@@ -2,9 +2,9 @@
 import re
 
 from . import absint as A
-from .lib import callers, closure_args_of_call, operand_local, result_split, try_edges
+from .lib import borrow_root, callers, closure_args_of_call, operand_local, result_split, try_edges
 from .lib_c01 import (VALUE_PRESERVING, access_path, always_err_try_edges, bool_switch_of_call, conflict_loop, dead_ends, edge_is_rejecting,
-                      enum_switches, ok_return_blocks, option_edges, sources, Renamed, PRE_FIX_F3_EDITS)
+                      enum_switches, ok_return_blocks, option_edges, outermost_fn, resolve_path, sources, Renamed, PRE_FIX_F3_EDITS)
 
 LEVEL = "other"
 TECHNIQUE = ("static analysis: dominance of router.insert by the three validations' Continue edges, decision tables read off the MIR switches of HttpRouter::insert "
@@ -175,12 +175,18 @@ def r2_conflict_table(ctx):
             continue
         gbb, gt = ag[0]
         pn = access_path(ins, gt["args"][0], VP)
-        pd = access_path(ins, gt["args"][1], VP)
+        # the edge created when there is none: the value handed to get_or_insert, or what the closure handed to get_or_insert_with returns
+        cx, pd = ins, access_path(ins, gt["args"][1], VP)
+        made_by = closure_args_of_call(ins, gt)
+        if made_by and gt["callee"].endswith("get_or_insert_with"):
+            cx = made_by[0][0]
+            made = sources(cx, {"l": 0, "p": []}, VP)
+            pd = made[0] if len(made) == 1 else pd
         okd = pn.root_local() == node and pn.path == ["edges"] and pd.kind() == "agg" and pd.root[2].get("adt") == "router::HttpRouterEdges" and pd.root[2].get("variant") == edge
         ctx.check(R, "%s:creates-%s-only-when-no-edge-exists" % (seg, edge), okd, "get_or_insert(%r, %s)" % (pn, (pd.root[2].get("variant") if pd.kind() == "agg" else pd)), (ins, gbb))
         if pd.kind() == "agg" and edge != "Literals" and len(pd.root[2]["ops"]) == 2:
-            pname = access_path(ins, pd.root[2]["ops"][0], VP)
-            ctx.check(R, "%s:new-edge-named-after-segment" % seg, pname.root_local() == seg_local and pname.path == ["as " + seg, "0"], "new edge's variable name is %r" % pname, (ins, gbb))
+            g_, pname = resolve_path(ctx.ds, cx, pd.root[2]["ops"][0], VP)
+            ctx.check(R, "%s:new-edge-named-after-segment" % seg, g_ is ins and pname.root_local() == seg_local and pname.path == ["as " + seg, "0"], "new edge's variable name is %r" % pname, (ins, gbb))
         esw = [s for s in enum_switches(ins, r"^router::HttpRouterEdges$") if inarm(s[0]) and access_path(ins, s[1]["place"], VP).call() and access_path(ins, s[1]["place"], VP).call()[2] is gt]
         if len(esw) != 1:
             ctx.check(R, "%s:match-on-existing-edge" % seg, False, "switches on the existing edge kind in this arm: %d" % len(esw), (ins, gbb))
@@ -333,9 +339,9 @@ def r3_shape(ctx):
         ctx.check(R, "edge-shape:%s" % v["name"], ok, "%s(%s)" % (v["name"], ", ".join(t[:70] for t in tys)), nontrivial=False)
     priv = all(f["vis"] != "Public" for f in node["variants"][0]["fields"]) and all(f["vis"] != "Public" for v in edges["variants"] for f in v["fields"])
     ctx.check(R, "trie-fields-not-public", priv, "no field of HttpRouterNode / HttpRouterEdges is public: %s" % priv, nontrivial=False)
-    sites = sorted(set(f.id for f in ctx.ds.F.values() for _ in f.aggregates(r"^router::HttpRouterEdges$")))
+    sites = sorted(set(outermost_fn(ctx.ds, f).id for f in ctx.ds.F.values() for _ in f.aggregates(r"^router::HttpRouterEdges$")))    # closures count for the function they are written in
     ctx.check(R, "edges-built-only-in-insert", sites == ["router::HttpRouter::<Context>::insert"], "aggregate sites of HttpRouterEdges: %s" % sites)
-    nsites = sorted(set(f.id for f in ctx.ds.F.values() for _ in f.aggregates(r"^router::HttpRouterNode$")))
+    nsites = sorted(set(outermost_fn(ctx.ds, f).id for f in ctx.ds.F.values() for _ in f.aggregates(r"^router::HttpRouterNode$")))
     ctx.check(R, "nodes-built-only-empty", nsites == ["router::HttpRouterNode::<Context>::new"], "aggregate sites of HttpRouterNode: %s" % nsites)
     # nobody assigns .edges directly (only Option::get_or_insert in insert writes it)
     writes = []
@@ -347,7 +353,7 @@ def r3_shape(ctx):
             if t["args"] and (t.get("callee") or "").startswith("std::option::Option::<T>::") and re.search(r"::(insert|replace|take|get_or_insert|get_or_insert_with|as_mut)$", t["callee"]):
                 p = access_path(f, t["args"][0], VP)
                 if p.path and p.path[-1] == "edges" and "HttpRouterEdges" in f.local_ty(operand_local(t["args"][0]) or 0):
-                    writes.append(f.id)
+                    writes.append(outermost_fn(ctx.ds, f).id)
     ctx.check(R, "edges-written-only-in-insert", sorted(set(writes)) == ["router::HttpRouter::<Context>::insert"], "functions writing a node's `edges`: %s" % sorted(set(writes)))
 
 
@@ -387,7 +393,7 @@ def _closure_variant_table(h, adt_pattern):
             out[v] = ("None", None)
         else:
             out[v] = ("?", None)
-    return info, out
+    return dict(info, targets=targets), out
 
 
 def _filter_map_closure(fn, sl):
@@ -399,6 +405,92 @@ def _filter_map_closure(fn, sl):
     return None
 
 
+def Path_prefix(p):
+    """The access path one field up (`x.metadata` -> `x`)."""
+    from .lib_c01 import Path
+    q = Path(p.fn, p.root, p.path[:-1], p.calls)
+    return q
+
+
+FRESH_COLLECTION = r"(HashSet|BTreeSet|BTreeMap|HashMap)::<[^>]*>::(new|with_capacity|default)$|default::Default::default$"
+
+
+def _comprehension(fn, coll, adt_pattern):
+    """How a set / map is filled from an iteration with a match on an enum per element, in either idiom:
+
+      chain : src.iter().filter_map(|x| match E(x) { A(v) => Some(..v..), B => None }).collect()
+      loop  : let mut c = Set::new(); for x in src { match E(x) { A(v) => { c.insert(..v..); } B => {} } }
+
+    Returns None (not such a collection) or dict(form, ctx = the function or closure holding the match, info = the switch (place of the scrutinee),
+    table = {variant: ("Some", [component sources..]) | ("None", None) | ("?", None)}, src = slice of the iterated source, local = the collection's
+    local in fn, is_elem = predicate telling whether an access path in ctx is the element under iteration).  A map's payload has two components."""
+    la = access_path(fn, coll, VP)
+    if la.path:
+        return None
+    if la.is_call(r"iter::Iterator::collect$"):
+        sl = fn.slice(la.call()[2]["args"][0])
+        h = _filter_map_closure(fn, sl)
+        if h is None:
+            return None
+        info, tab = _closure_variant_table(h, adt_pattern)
+        if tab is None:
+            return None
+        table = {}
+        for v, (k, qs) in tab.items():
+            if k == "Some" and len(qs) == 1 and qs[0].kind() == "agg" and qs[0].root[2].get("agg") == "tuple" and not qs[0].path:
+                table[v] = ("Some", [sources(h, o, VP, via=info["targets"][v]) for o in qs[0].root[2]["ops"]])
+            elif k == "Some":
+                table[v] = ("Some", [qs])
+            else:
+                table[v] = (k, None)
+        return {"form": "chain", "ctx": h, "info": info, "table": table, "src": sl, "local": la.root_local(),
+                "is_elem": lambda q: q.kind() == "param" and q.root[1] == 2 and not q.calls}
+    if not (la.kind() == "call" and re.search(FRESH_COLLECTION, la.root[2]) and not la.calls):
+        return None
+    c = la.root_local()
+    writes, foreign = [], []
+    for bb, t in fn.live_calls():
+        for idx, a in enumerate(t["args"]):
+            l = operand_local(a)
+            if l is not None and fn.local_ty(l).startswith("&") and "mut " in fn.local_ty(l)[:16] and borrow_root(fn, a) == c:
+                if idx == 0 and re.search(r"(Set|Map)::<[^>]*>::insert$", t.get("callee") or "") and len(t["args"]) in (2, 3):
+                    writes.append((bb, t))
+                else:
+                    foreign.append(t.get("callee"))
+    if foreign or not writes:
+        return None
+    found = []
+    for sbb, info, targets in enum_switches(fn, adt_pattern):
+        pin = access_path(fn, info["place"], VP)
+        e = pin
+        if pin.call() and not pin.is_call(r"iter::Iterator::next$") and pin.call()[2]["args"]:
+            e = access_path(fn, pin.call()[2]["args"][0], VP)
+        if e.is_call(r"iter::Iterator::next$") and e.npath()[:2] == ["+", "0"]:
+            found.append((sbb, dict(info, targets=targets), targets, e.call()[1], e.call()[2]))
+    found = [x for x in found if any(wb in fn.reachable(x[0]) for wb, _ in writes)]
+    if len(found) != 1:
+        return None
+    sbb, info, targets, nbb, nt = found[0]
+    table = {}
+    covered = set()
+    wbs = [wb for wb, _ in writes]
+    for v, tgt in targets.items():
+        r = fn.reachable(tgt, avoid=[nbb])
+        ws = [(wb, wt) for wb, wt in writes if wb in r]
+        if len(ws) == 1:
+            must = nbb not in fn.reachable(tgt, avoid=[ws[0][0]]) and not any(x in fn.reachable(tgt, avoid=[ws[0][0], nbb]) for x in fn.returns())
+            covered.add(ws[0][0])
+            table[v] = ("Some", [sources(fn, o, VP, via=tgt, avoid=[nbb]) for o in ws[0][1]["args"][1:]]) if must else ("?", None)
+        elif not ws:
+            table[v] = ("None", None)
+        else:
+            table[v] = ("?", None)
+    if set(wbs) - covered:
+        return None         # a write that is not in any arm of the match (outside the loop, or unconditional)
+    return {"form": "loop", "ctx": fn, "info": info, "table": table, "src": fn.slice(nt["args"][0]), "local": c,
+            "is_elem": lambda q: q.call() is not None and q.call()[2] is nt and q.npath()[:2] == ["+", "0"]}
+
+
 def r5_parameter_rules(ctx):
     R = ctx.rule("C02.R5", "validate_path_parameters: {variables of the path template} != {Path(..) parameters} -> Err, equal -> Ok; validate_named_parameters: Query name that is a path "
                  "variable -> Err; Path+Segment -> type_is_scalar?, Path+Wildcard -> type_is_string_enum?, Query -> type_is_scalar?, each on that parameter's name and schema, on every path", floor=15)
@@ -406,53 +498,43 @@ def r5_parameter_rules(ctx):
     vpp = ctx.need_fn(ctx.ds, R, r"^api_description::ApiDescription::<Context>::validate_path_parameters$")
     cmpc = []
     for bb, t in vpp.live_calls(r"cmp::PartialEq::(eq|ne)$"):
-        sa, sb = vpp.slice(t["args"][0]), vpp.slice(t["args"][1])
-        for x, y, xa, ya in ((sa, sb, t["args"][0], t["args"][1]), (sb, sa, t["args"][1], t["args"][0])):
-            if x.has_call(r"^router::route_path_to_segments$") and y.reads_field("parameters") and not y.has_call(r"^router::route_path_to_segments$"):
-                cmpc.append((bb, t, x, y, xa, ya))
+        for xa, ya in ((t["args"][0], t["args"][1]), (t["args"][1], t["args"][0])):
+            cx = _comprehension(vpp, xa, r"^router::PathSegment$")
+            cy = _comprehension(vpp, ya, r"^api_description::ApiEndpointParameterMetadata$")
+            if cx and cy and cx["src"].has_call(r"^router::route_path_to_segments$") and cy["src"].reads_field("parameters") and not cy["src"].has_call(r"^router::route_path_to_segments$"):
+                cmpc.append((bb, t, cx, cy, xa, ya))
     if len(cmpc) != 1:
         ctx.lost(R, "the comparison of the template's variable set with the Path parameter set in validate_path_parameters (%d found)" % len(cmpc))
     else:
-        bb, t, sp, sv, pa, va = cmpc[0]
+        bb, t, cp, cv, pa, va = cmpc[0]
+        sp, sv = cp["src"], cv["src"]
         ctx.check(R, "vpp:template-side-is-e.path", sp.reads_field("path") and sp.params() == [2] and not sp.reads_field("parameters"),
                   "template side reads e.%s (params %s)" % ("path" if sp.reads_field("path") else "?", sp.params()), (vpp, bb))
-        hp = _filter_map_closure(vpp, sp)
-        hv = _filter_map_closure(vpp, sv)
-        okp = False
-        d = "no filter_map closure on the template side"
-        if hp is not None:
-            info, tab = _closure_variant_table(hp, r"^router::PathSegment$")
-            if tab is not None:
-                pin = access_path(hp, info["place"], VP)
-                src_ok = pin.is_call(r"^router::PathSegment::from$") and access_path(hp, pin.call()[2]["args"][0], VP).kind() == "param"
-                pay = {}
-                for v, (k, qs) in tab.items():
-                    if k == "Some":
-                        pay[v] = bool(qs) and all(q.root_local() == pin.root_local() and q.path == ["as " + v, "0"] for q in qs)
-                okp = src_ok and {v: k for v, (k, _) in tab.items()} == {"Literal": "None", "VarnameSegment": "Some", "VarnameWildcard": "Some"} and all(pay.values())
-                d = "PathSegment::from(segment): %s (payload is the variable name: %s)" % ({v: k for v, (k, _) in sorted(tab.items())}, pay)
-        ctx.check(R, "vpp:template-variables-are-both-variable-kinds", okp, d, hp or vpp)
-        okq = False
-        d = "no filter_map closure on the parameter side"
-        if hv is not None:
-            info, tab = _closure_variant_table(hv, r"^api_description::ApiEndpointParameterMetadata$")
-            if tab is not None:
-                pin = access_path(hv, info["place"], VP)
-                kinds = {v: k for v, (k, _) in tab.items()}
-                pay = False
-                if tab.get("Path", ("?", None))[0] == "Some":
-                    qs = tab["Path"][1]
-                    pay = bool(qs) and all(q.root == pin.root and q.path == pin.path + ["as Path", "0"] for q in qs)
-                okq = pin.kind() == "param" and pin.path == ["metadata"] and kinds.get("Path") == "Some" and all(k == "None" for v, k in kinds.items() if v != "Path") and pay
-                d = "parameter.metadata: %s (payload is the Path name: %s)" % (dict(sorted(kinds.items())), pay)
-        ctx.check(R, "vpp:parameter-side-is-the-Path-parameters", okq and sv.params() == [2], d, hv or vpp)
-        ta, tb_ = vpp.local_ty(operand_local(pa) or 0), vpp.local_ty(operand_local(va) or 0)
-        la, lb = access_path(vpp, pa, VP), access_path(vpp, va, VP)
-        tya = vpp.local_ty(la.root_local()) if la.root_local() is not None else ""
-        tyb = vpp.local_ty(lb.root_local()) if lb.root_local() is not None else ""
+        hp, tab = cp["ctx"], cp["table"]
+        pin = access_path(hp, cp["info"]["place"], VP)
+        src_ok = pin.is_call(r"^router::PathSegment::from$") and cp["is_elem"](access_path(hp, pin.call()[2]["args"][0], VP))
+        pay = {}
+        for v, (k, comps) in tab.items():
+            if k == "Some":
+                pay[v] = len(comps) == 1 and bool(comps[0]) and all(q.root_local() == pin.root_local() and q.path == ["as " + v, "0"] for q in comps[0])
+        okp = src_ok and {v: k for v, (k, _) in tab.items()} == {"Literal": "None", "VarnameSegment": "Some", "VarnameWildcard": "Some"} and all(pay.values())
+        ctx.check(R, "vpp:template-variables-are-both-variable-kinds", okp,
+                  "PathSegment::from(segment) [%s idiom]: %s (payload is the variable name: %s)" % (cp["form"], {v: k for v, (k, _) in sorted(tab.items())}, pay), hp)
+        hv, tab = cv["ctx"], cv["table"]
+        pin = access_path(hv, cv["info"]["place"], VP)
+        kinds = {v: k for v, (k, _) in tab.items()}
+        pay = False
+        if tab.get("Path", ("?", None))[0] == "Some":
+            comps = tab["Path"][1]
+            pay = len(comps) == 1 and bool(comps[0]) and all(q.root == pin.root and q.path == pin.path + ["as Path", "0"] for q in comps[0])
+        elem_md = pin.path[-1:] == ["metadata"] and cv["is_elem"](Path_prefix(pin))
+        okq = elem_md and kinds.get("Path") == "Some" and all(k == "None" for v, k in kinds.items() if v != "Path") and pay
+        ctx.check(R, "vpp:parameter-side-is-the-Path-parameters", okq and sv.params() == [2],
+                  "parameter.metadata [%s idiom]: %s (payload is the Path name: %s)" % (cv["form"], dict(sorted(kinds.items())), pay), hv)
+        tya = vpp.local_ty(cp["local"]) if cp["local"] is not None else ""
+        tyb = vpp.local_ty(cv["local"]) if cv["local"] is not None else ""
         isset = lambda ty: bool(re.match(r"^std::collections::(HashSet|BTreeSet)<std::string::String", ty))
-        ctx.check(R, "vpp:compared-as-sets-of-names", isset(tya) and tya == tyb and la.is_call(r"iter::Iterator::collect$") and lb.is_call(r"iter::Iterator::collect$"),
-                  "compared values: %s and %s" % (tya[:60], tyb[:60]), (vpp, bb))
+        ctx.check(R, "vpp:compared-as-sets-of-names", isset(tya) and tya == tyb, "compared values: %s and %s" % (tya[:60], tyb[:60]), (vpp, bb))
         sw = bool_switch_of_call(vpp, bb, t)
         okm = False
         d = "no branch on the comparison"
@@ -469,41 +551,40 @@ def r5_parameter_rules(ctx):
         ctx.check(R, "vpp:mismatch-is-Err-and-match-is-Ok", okm, d, (vpp, bb))
     # ---------------- validate_named_parameters
     vnp = ctx.need_fn(ctx.ds, R, r"^api_description::ApiDescription::<Context>::validate_named_parameters$")
-    # path_segments map
+    # path_segments map: name -> kind of the template's variables, built by collect() of a filter_map or by inserts in a loop
     maps = []
-    for bb, t in vnp.live_calls(r"iter::Iterator::collect$"):
-        sl = vnp.slice(t["args"][0])
-        if sl.has_call(r"^router::route_path_to_segments$"):
-            maps.append((bb, t, sl))
+    cands = [t["dest"] for bb, t in vnp.live_calls(r"iter::Iterator::collect$")] + [t["dest"] for bb, t in vnp.live_calls(FRESH_COLLECTION)]
+    for dest in cands:
+        if dest["p"]:
+            continue
+        comp = _comprehension(vnp, dest, r"^router::PathSegment$")
+        if comp and comp["src"].has_call(r"^router::route_path_to_segments$"):
+            maps.append(comp)
     if len(maps) != 1:
         ctx.lost(R, "the name -> segment-kind map built from the path template in validate_named_parameters (%d found)" % len(maps))
         return
-    mbb, mt, msl = maps[0]
-    mlocal = mt["dest"]["l"]
+    comp = maps[0]
+    mlocal, msl, hm = comp["local"], comp["src"], comp["ctx"]
     sow = [k for k in ctx.ds.adts if k.endswith("validate_named_parameters::SegmentOrWildcard")]
-    hm = _filter_map_closure(vnp, msl)
     okmap = False
-    d = "no filter_map closure building the map"
-    if hm is not None and len(sow) == 1:
-        info, tab = _closure_variant_table(hm, r"^router::PathSegment$")
-        if tab is not None:
-            pin = access_path(hm, info["place"], VP)
-            got = {}
-            for v, (k, qs) in tab.items():
-                if k != "Some":
-                    got[v] = k
-                    continue
-                q = qs[0] if len(qs) == 1 else access_path(hm, {"l": 0, "p": []}, [])
-                if q.kind() == "agg" and q.root[2].get("agg") == "tuple" and len(q.root[2]["ops"]) == 2:
-                    nm = access_path(hm, q.root[2]["ops"][0], VP)
-                    kd = access_path(hm, q.root[2]["ops"][1], VP)
-                    got[v] = (nm.root_local() == pin.root_local() and nm.path == ["as " + v, "0"],
-                              kd.root[2].get("variant") if kd.kind() == "agg" and kd.root[2].get("adt") == sow[0] else "?")
-                else:
-                    got[v] = "?"
-            okmap = got == {"Literal": "None", "VarnameSegment": (True, "Segment"), "VarnameWildcard": (True, "Wildcard")} and msl.reads_field("path") and msl.params() == [2]
-            d = "template segment -> map entry: %s" % dict(sorted(got.items(), key=lambda kv: kv[0]))
-    ctx.check(R, "vnp:path-variable-kinds-from-e.path", okmap and bool(re.match(r"^std::collections::(BTreeMap|HashMap)<std::string::String", vnp.local_ty(mlocal))), d, hm or vnp)
+    d = "the map is not keyed by the variable kinds of the template"
+    if len(sow) == 1:
+        pin = access_path(hm, comp["info"]["place"], VP)
+        src_ok = pin.is_call(r"^router::PathSegment::from$") and comp["is_elem"](access_path(hm, pin.call()[2]["args"][0], VP))
+        got = {}
+        for v, (k, comps) in comp["table"].items():
+            if k != "Some":
+                got[v] = k
+                continue
+            if len(comps) == 2 and comps[0] and len(comps[1]) == 1:
+                kd = comps[1][0]
+                got[v] = (all(nm.root_local() == pin.root_local() and nm.path == ["as " + v, "0"] for nm in comps[0]),
+                          kd.root[2].get("variant") if kd.kind() == "agg" and kd.root[2].get("adt") == sow[0] else "?")
+            else:
+                got[v] = "?"
+        okmap = src_ok and got == {"Literal": "None", "VarnameSegment": (True, "Segment"), "VarnameWildcard": (True, "Wildcard")} and msl.reads_field("path") and msl.params() == [2]
+        d = "template segment -> map entry [%s idiom]: %s" % (comp["form"], dict(sorted(got.items(), key=lambda kv: kv[0])))
+    ctx.check(R, "vnp:path-variable-kinds-from-e.path", okmap and bool(re.match(r"^std::collections::(BTreeMap|HashMap)<std::string::String", vnp.local_ty(mlocal))), d, hm)
     # the loop over e.parameters
     loops = []
     for bb, t in vnp.live_calls(r"iter::Iterator::next$"):
@@ -566,14 +647,14 @@ def r5_parameter_rules(ctx):
                 sw = bool_switch_of_call(vnp, kbb, kt)
                 if sw and km.root_local() == mlocal and not km.path and kk.root == pn.root and kk.path == pn.path and vnp.edge_dominates(sw[0], sw[2], cbb):
                     kguard = True
-        te = try_edges(vnp, ct["dest"]["l"])
-        prop = te is not None and edge_is_rejecting(vnp, te["switch_bb"], te["brk"]) and nbb not in vnp.reachable(te["brk"])
+        sp = result_split(vnp, ct["dest"]["l"])        # `check(..)?`, match, if-let-Err alike
+        prop = sp is not None and edge_is_rejecting(vnp, sp["switch_bb"], sp["err"]) and nbb not in vnp.reachable(sp["err"])
         cell = (var, kind)
         seen_cells.setdefault(cell, []).append(fnname)
         if var in sites_by_variant:
             sites_by_variant[var].append(cbb)
         ctx.check(R, "vnp:check:%s%s" % (var, ("+" + kind) if kind else ""), ok_args and guarded and kguard and want.get(cell) == fnname and prop,
-                  "%s(op, %r, %r, ..) under metadata=%s%s; expected %s; name/schema are this parameter's: %s; guard edges dominate: %s; `?` returns the error: %s"
+                  "%s(op, %r, %r, ..) under metadata=%s%s; expected %s; name/schema are this parameter's: %s; guard edges dominate: %s; its Err is returned: %s"
                   % (fnname, pn, psch, var, ("/" + kind) if kind else "", want.get(cell), bool(ok_args), guarded and kguard, prop), (vnp, cbb))
     ctx.check(R, "vnp:three-guarded-checks", {k: sorted(v) for k, v in seen_cells.items()} == {k: [v] for k, v in want.items()},
               "cells found: %s" % {("%s/%s" % k): v for k, v in seen_cells.items()}, vnp)
